@@ -4,7 +4,7 @@ CONSTANTS
   MaxElems = 1
   MaxTextKids = 0
   MaxComments = 0
-  APfx = {"-", "@", ""}
+  APfx = {"-", "@", "", "A"}
   KPfx = {"#", "_"}
   Casts = {FALSE, TRUE}
   DoEmit = TRUE
